@@ -2,7 +2,7 @@
    Model: Kernel/Frag.v = bisturi/fragments.py class Fragments as repaired by the D3 "fix:" commit
    (tied by Bridge/FragBridge.v and by harness/props/C11.py).  Only property theorems, closed by `exact`. *)
 From Coq Require Import ZArith List Bool.
-From Bisturi Require Import Base.Bytes Kernel.Frag Proofs.FragProofs.
+From Bisturi Require Import Base.Bytes Kernel.Frag Proofs.FragProofs Proofs.FragContinue.
 Import ListNotations. Open Scope Z_scope.
 
 (* inserting a non-empty chunk raises exactly when some byte of [p, p+len) is already occupied ... *)
@@ -42,6 +42,22 @@ Proof. exact R_empty. Qed.
 Theorem C11_history_bytes : forall s a, R s a -> tobytes s = a_tobytes a.
 Proof. exact tobytes_refines. Qed.
 
+(* ---- a caller that CATCHES the collision and goes on using the buffer: a rejected operation leaves it as it was ---- *)
+Theorem C11_history_continue : forall ops s a k, R s a -> Forall op_nonneg ops ->
+  R (fst (run_ops_c s ops k)) (fst (fold_a_c a ops k)) /\ snd (run_ops_c s ops k) = snd (fold_a_c a ops k).
+Proof. exact history_continue_refines. Qed.
+Theorem C11_history_continue_bytes : forall ops k, Forall op_nonneg ops ->
+  tobytes (fst (run_ops_c empty ops k)) = a_tobytes (fst (fold_a_c aempty ops k)).
+Proof. exact history_continue_bytes. Qed.
+Theorem C11_rejected_is_noop : forall s o r k, (forall s', apply_op s o <> Ok s') ->
+  fst (run_ops_c s (o :: r) k) = fst (run_ops_c s r (k + 1)).
+Proof. exact rejected_is_noop. Qed.
+Example C11_continue_example :
+  run_ops_c empty [OInsert 0 [1; 2]; OInsert 1 [9; 9]; OAppend [3]; OInsert 0 [7]; OAppend [4]] 0 =
+    ({| frags := [(0, [1; 2]); (2, [3]); (3, [4])]; begins := [0; 2; 3]; cur := 4 |}, [1; 3]) /\
+  tobytes (fst (run_ops_c empty [OInsert 0 [1; 2]; OInsert 1 [9; 9]; OAppend [3]; OInsert 0 [7]; OAppend [4]] 0)) = [1; 2; 3; 4].
+Proof. exact continue_example. Qed.
+
 Example C11_example :
   fst (run_ops empty [OInsert 5 [1; 2]; OInsert 0 [7]; OInsert 3 []] 0) =
     Ok {| frags := [(0, [7]); (3, []); (5, [1; 2])]; begins := [0; 5]; cur := 3 |} /\
@@ -56,3 +72,6 @@ Print Assumptions C11_tobytes.
 Print Assumptions C11_history.
 Print Assumptions C11_history_start.
 Print Assumptions C11_history_bytes.
+Print Assumptions C11_history_continue.
+Print Assumptions C11_history_continue_bytes.
+Print Assumptions C11_rejected_is_noop.
